@@ -354,6 +354,25 @@ theorem upstream_response_returned_partial (follow : Bool) (defaults : Headers) 
   apply serve_single_hop follow defaults target redir up r hc
   rcases hnr with h | h <;> simp [h]
 
+/-- **request_body_relayed_verbatim** — whenever a request is relayed, the upstream is handed
+exactly the client's body bytes and method, whatever the headers (Content-Encoding, Content-Type,
+…) say about them: the body is opaque to the proxy. -/
+theorem request_body_relayed_verbatim (follow : Bool) (defaults : Headers) (target : String)
+    (redir : UpReq → Resp → UpReq) (up : UpReq → Resp) (r : Req) (seen : UpReq) (hops : Nat) (c : Resp)
+    (h : serve follow defaults target redir up r = .relayed seen hops c) :
+    seen.body = r.body ∧ seen.method = r.method := by
+  unfold serve at h
+  split at h
+  · cases h
+  · simp only at h
+    cases hd : clientDo follow redir up 10 0 (relay target r) with
+    | err => rw [hd] at h; cases h
+    | resp rs n =>
+      rw [hd] at h
+      injection h with h1 _ _
+      subst h1
+      exact ⟨rfl, rfl⟩
+
 /-- The statement at full strength. -/
 def FullStatement (follow : Bool) : Prop :=
   AlwaysRelayed ∧ UpstreamResponseReturned follow ∧ XffAllLines ∧ SetCookiePreserved
